@@ -243,6 +243,20 @@ def run(ctx):
         if B is None:
             continue
         aggs = [(bb, st) for bb, j, st in B.stmts() if st['k'] == '=' and st['rv']['k'] == 'agg' and st['rv'].get('adt') == CM]
+        if len(aggs) == 0:
+            # built through a constructor function of ControlMessage: the constructor's own literal, with its parameters replaced by the arguments given here
+            from ..fieldorder import ctor_summary as _ctor7
+            ctors = [(bb, t, n) for bb, t in B.calls() for n in callee_names(t) if n.startswith(CM + '::') and n in ctx.F.bodies and ctx.F.bodies[n]['locals'][0]['ty'] == CM]
+            if len(ctors) == 1:
+                cbb, ct, cn = ctors[0]
+                CB7 = P.B(cn)
+                lits = [st2 for b2, j2, st2 in CB7.stmts() if st2['k'] == '=' and st2['rv']['k'] == 'agg' and st2['rv'].get('adt') == CM]
+                summ = _ctor7(P, cn)
+                if len(lits) == 1 and summ:
+                    inv = {f: i for i, f in summ.items()}
+                    rv2 = dict(lits[0]['rv'])
+                    rv2['ops'] = [ct['args'][inv[f]] if f in inv and inv[f] < len(ct['args']) else {'k': 'c', 'd': 'set inside the constructor'} for f in rv2['fn']]
+                    aggs = [(cbb, {'k': '=', 'rv': rv2, 'ln': ct.get('ln'), '_via_ctor': cn})]
         if len(aggs) != 1:
             ctx.bad('C07.2-op-to-message', op, '%d control messages are constructed (expected exactly one)' % len(aggs), ctx.where(B), key='TABLE:%s%s:message-count' % (CONN, op))
             continue
@@ -265,7 +279,7 @@ def run(ctx):
         sends = [(b2, t2) for b2, t2 in B.calls() if is_call_to(t2, CONN + 'send_control_message')]
         if sends:
             o = B.origin(sends[0][1]['args'][1])
-            if not (o[0] == 'agg' and o[2] == bb):
+            if not ((o[0] == 'agg' and o[2] == bb) or (st.get('_via_ctor') and o[0] == 'call' and o[2] == bb)):
                 problems.append('send_control_message is not given the constructed message')
             po = B.origin(sends[0][1]['args'][2])
             has_payload = by_tag[want_tag]['payload']
